@@ -198,15 +198,35 @@ func checkCloseOnce(c *Ctx, rule string, f *ssa.Function, ch ssa.Value, chName s
 	eachInstr(f, func(i ssa.Instruction) {
 		if s, ok := i.(*ssa.Select); ok {
 			for _, st := range s.States {
-				if st.Chan == ch && st.Dir == types.SendOnly {
+				if sameChan(st.Chan, ch) && st.Dir == types.SendOnly {
 					nb++
 				}
 			}
 		}
-		if s, ok := i.(*ssa.Send); ok && s.Chan == ch {
+		if s, ok := i.(*ssa.Send); ok && sameChan(s.Chan, ch) {
 			nSend++
 		}
 	})
+	// closures of f that captured the channel: a select-send there drops or reorders just the same
+	elemOf := func(t types.Type) types.Type {
+		if c, ok := t.Underlying().(*types.Chan); ok {
+			return c.Elem()
+		}
+		return nil
+	}
+	for _, af := range f.AnonFuncs {
+		eachInstr(af, func(i ssa.Instruction) {
+			if s, ok := i.(*ssa.Select); ok {
+				for _, st := range s.States {
+					if st.Dir == types.SendOnly && elemOf(st.Chan.Type()) != nil && elemOf(ch.Type()) != nil && types.Identical(elemOf(st.Chan.Type()), elemOf(ch.Type())) {
+						if _, fromFree := capturedFrom(st.Chan); fromFree {
+							nb++
+						}
+					}
+				}
+			}
+		})
+	}
 	c.check(nb == 0, rule, "blocking-sends/"+key, firstPos, fmt.Sprintf("%d plain blocking sends, none inside select", nSend), fmt.Sprintf("%d send(s) on %s are select cases (may drop or reorder)", nb, chName))
 }
 
@@ -262,4 +282,18 @@ func chanEscapes(f *ssa.Function, ch ssa.Value, allowCalls map[string]bool) []st
 		}
 	}
 	return out
+}
+
+// capturedFrom: v is (a load of) a free variable of its closure.
+func capturedFrom(v ssa.Value) (*ssa.FreeVar, bool) {
+	v = unwrap(v)
+	if fv, ok := v.(*ssa.FreeVar); ok {
+		return fv, true
+	}
+	if ld, ok := v.(*ssa.UnOp); ok && ld.Op == token.MUL {
+		if fv, ok := ld.X.(*ssa.FreeVar); ok {
+			return fv, true
+		}
+	}
+	return nil, false
 }
